@@ -492,7 +492,7 @@ def rule_r6(ctx) -> List[R.Inst]:
     insts = []
     for q, allowed in ((SNAPPER + ".snap", set()), (SNAP + ".from_offset", set()), (SNAP + ".offset", set()),
                        (T.TIMINGMAP + ".offsets", {"bpm_changes_offset"}), (T.TIMINGMAP + ".snaps", {"bpm_changes_offset"}),
-                       (T.TIMINGMAP + ".beats", {"bpm_changes_offset"})):
+                       (T.TIMINGMAP + ".beats", {"bpm_changes_offset"}), (T.TIMINGMAP + ".bpm_changes_snap", {"bpm_changes_offset"})):
         fn = M.fn(q)
         file = M.mods[fn.mod].rel
         s = E.summary(q)
@@ -715,6 +715,64 @@ def rule_r11(ctx) -> List[R.Inst]:
                    construct=f"Snapper.__init__: {d} used only through max()")]
 
 
+def rule_r12(ctx) -> List[R.Inst]:
+    """an empty query is a query: offsets / snaps / beats may not index the query (or anything derived from it) with a
+    constant outside a loop over it"""
+    M = ctx.M
+    rid = "C10.R12"
+    insts = []
+    for meth in ("offsets", "snaps", "beats"):
+        q = T.TIMINGMAP + "." + meth
+        fn = M.fn(q)
+        file = M.mods[fn.mod].rel
+        params = [a.arg for a in fn.node.args.args if a.arg != "self"]
+        if not params:
+            continue
+        derived = {params[0]}
+        for _ in range(4):
+            for n in walk_no_nested(fn.node):
+                if isinstance(n, ast.Assign) and isinstance(n.targets[0], ast.Name) and any(
+                        isinstance(x, ast.Name) and x.id in derived for x in ast.walk(n.value)) and not any(
+                        isinstance(x, ast.Call) and call_name(x) in ("len",) for x in ast.walk(n.value)):
+                    derived.add(n.targets[0].id)
+        # subscripts with a constant index on a derived name, outside for/while bodies
+        in_loop = set()
+        for n in ast.walk(fn.node):
+            if isinstance(n, (ast.For, ast.While)):
+                for st in n.body:
+                    in_loop |= {id(x) for x in ast.walk(st)}
+        bad = []
+        for n in ast.walk(fn.node):
+            if isinstance(n, ast.Subscript) and id(n) not in in_loop and isinstance(n.ctx, ast.Load):
+                base = n.value
+                while isinstance(base, ast.Subscript):
+                    base = base.value
+                idx = n.slice
+                const = isinstance(idx, ast.Constant) and isinstance(idx.value, int) or (
+                    isinstance(idx, ast.UnaryOp) and isinstance(idx.operand, ast.Constant))
+                inner_const = isinstance(idx, ast.Subscript) and isinstance(idx.slice, ast.Constant)
+                if isinstance(base, ast.Name) and base.id in derived and (const or inner_const):
+                    bad.append(n)
+        key = f"TimingMap.{meth}:empty-query"
+        # an up-front emptiness guard that returns makes the later fixed-index accesses safe
+        guard_line = None
+        for st in fn.node.body:
+            if isinstance(st, ast.If) and any(isinstance(x, ast.Return) for x in st.body):
+                t = unparse(st.test).replace(" ", "")
+                if any(t in (f"len({d})==0", f"notlen({d})", f"not{d}", f"len({d})<1", f"{d}.size==0") for d in derived):
+                    guard_line = st.lineno
+                    break
+        if guard_line is not None:
+            bad = [b for b in bad if b.lineno < guard_line]
+        if bad:
+            insts.append(R.viol(rid, key, file, bad[0].lineno,
+                                f"'{unparse(bad[0])}' takes a fixed element of the query: an empty query (a legal multiset) raises IndexError "
+                                f"instead of returning an empty result", construct=f"{meth}: {unparse(bad[0])}"))
+        else:
+            insts.append(R.ok(rid, key, file, fn.node.lineno, idiom="the query is only iterated / indexed by its own permutation"))
+    return insts
+
+
 def rule_dep(ctx):
     """obligations inherited from shared code the timing operations reach (list accessors under BpmList.to_timing_map,
     hidden state, copy hooks); the timing group itself is decided by the rules above"""
@@ -735,8 +793,9 @@ SPECS = [
     RuleSpec("C10.R8", rule_r8, 24, "A7", "RAConst unit helpers: exact scaling named by the function, python float result"),
     RuleSpec("C10.R9", rule_r9, 2, "A8", "one position entry per tempo change (parallel lists)"),
     RuleSpec("C10.R11", rule_r11, 1, "A7", "the requested divisions constrain the fraction table"),
+    RuleSpec("C10.R12", rule_r12, 3, "A8", "an empty query returns an empty result (no fixed-index access to the query)"),
     RuleSpec("C10.D", rule_dep, 1, "M0", "rules of the shared code (list classes and their generated accessors, hidden state) that the timing operations reach"),
-    RuleSpec("C10.R6", rule_r6, 6, "A3", "snapping and the position/time conversions write no hidden state"),
+    RuleSpec("C10.R6", rule_r6, 7, "A3", "snapping and the position/time conversions write no hidden state"),
 ]
 
 META = dict(
